@@ -48,6 +48,22 @@ class LInnerX(LInner):
 
 
 @dataclass
+class LFalsy(LInner):
+    """a container-like node that is falsy (as a class with __len__ over an empty field is)"""
+
+    def __len__(self) -> int:
+        return 0
+
+
+@dataclass
+class LHide(AwareASTNode):
+    """its child does not take part in comparisons: a node of this class can be == to its own parent"""
+
+    kid: AwareASTNode | None = field(default=None, compare=False)
+    v: int = 0
+
+
+@dataclass
 class LReq(AwareASTNode):
     req: AwareASTNode
     v: int = 0
@@ -58,11 +74,13 @@ CHILD_FIELDS = {
     "LInner": [("req", "one"), ("opt", "one"), ("items", "tuple"), ("lst", "list"), ("un", "one"), ("oseq", "otuple")],
     "LInnerX": [("req", "one"), ("opt", "one"), ("items", "tuple"), ("lst", "list"), ("un", "one"), ("oseq", "otuple"),
                 ("extra", "one")],
+    "LFalsy": [("req", "one"), ("opt", "one"), ("items", "tuple"), ("lst", "list"), ("un", "one"), ("oseq", "otuple")],
+    "LHide": [("kid", "one")],
     "LReq": [("req", "one")],
 }
-PROP_FIELDS = {"LLeaf": ["v"], "LLeafB": ["s"], "LSub": ["v", "w"], "LInner": ["v"], "LInnerX": ["v"], "LReq": ["v"]}
+PROP_FIELDS = {"LLeaf": ["v"], "LLeafB": ["s"], "LSub": ["v", "w"], "LInner": ["v"], "LInnerX": ["v"], "LFalsy": ["v"], "LHide": ["v"], "LReq": ["v"]}
 BASES = {"LLeaf": ["LLeaf"], "LLeafB": ["LLeafB"], "LSub": ["LSub", "LLeaf"], "LInner": ["LInner"],
-         "LInnerX": ["LInnerX", "LInner"], "LReq": ["LReq"]}
+         "LInnerX": ["LInnerX", "LInner"], "LFalsy": ["LFalsy", "LInner"], "LHide": ["LHide"], "LReq": ["LReq"]}
 CLASS_NAMES = list(CHILD_FIELDS)
 UN_CLASSES = ("LLeaf", "LLeafB", "LSub")
 
@@ -179,7 +197,15 @@ def st_tree(leaves: int = 10, width: int = 4, wide: bool = True):
         })
         req = st.fixed_dictionaries({"c": st.just("LReq"), "o": origin, "p": st.fixed_dictionaries({"v": st.integers(0, 2)}),
                                      "k": st.fixed_dictionaries({"req": children})})
-        opts = [full, full, fullx, req]
+        falsy = st.fixed_dictionaries({
+            "c": st.just("LFalsy"), "o": origin, "p": st.fixed_dictionaries({"v": st.integers(0, 2)}),
+            "k": st.fixed_dictionaries({"req": opt, "opt": opt, "items": items, "lst": items, "un": st.none(), "oseq": st.none()}),
+        })
+        hide = st.fixed_dictionaries({"c": st.just("LHide"), "o": st.just(["no"]), "p": st.just({"v": 0}),
+                                      "k": st.fixed_dictionaries({"kid": opt})})
+        hide2 = opt.map(lambda k: {"c": "LHide", "o": ["no"], "p": {"v": 0},
+                                   "k": {"kid": {"c": "LHide", "o": ["no"], "p": {"v": 0}, "k": {"kid": k}}}})
+        opts = [full, full, full, full, fullx, req, falsy, hide, hide2]
         if wide:
             w = st.fixed_dictionaries({
                 "c": st.just("LInner"), "o": origin, "p": st.just({"v": 0}),
@@ -210,3 +236,25 @@ def warm(order: str) -> None:
             list(n.get_properties())
             type(n).get_child_fields()
             n.detach()
+
+
+def build_chain(depth: int, shape: str) -> list[Any]:
+    """an attached chain of `depth` single-child legacy nodes over a leaf, built iteratively bottom-up;
+    returns the nodes top to bottom. shapes: req, items, lst, mixed"""
+    from pyoak.origin import NO_ORIGIN
+
+    with warnings.catch_warnings():
+        warnings.simplefilter("ignore", DeprecationWarning)
+        node = cls("LLeaf")(v=1, origin=NO_ORIGIN)
+        out = [node]
+        for k in range(depth):
+            sh = shape if shape != "mixed" else ("req", "items", "lst")[k % 3]
+            if sh == "req":
+                node = cls("LInner")(req=node, v=k % 3, origin=NO_ORIGIN)
+            elif sh == "items":
+                node = cls("LInner")(items=(node,), v=k % 3, origin=NO_ORIGIN)
+            else:
+                node = cls("LInner")(lst=[node], v=k % 3, origin=NO_ORIGIN)
+            out.append(node)
+    out.reverse()
+    return out
